@@ -76,6 +76,12 @@ def check(ctx):
                        f.where(sorted(dis)[0]))
     handshake_waiter(ctx, W, Call(re.escape(CV) + "::notify_one"), "handshake", "notification", park_err_edge, exits_kind="ret")
     handshake_waker(ctx, CV + "::notify_one", Call(re.escape(CV) + "::notify_one"), "waker", "notification")
+    syncblocker_rules(ctx)      # the handshake primitives themselves (release is consumed atomically by exactly one side)
+    # dependency: Condvar::wait re-acquires the mutex through Mutex::lock with the cancel disabled (the `b_ignore` arm of the lock
+    # handshake), Barrier is a Mutex + Condvar: the lock handshake is part of what "no lost notification / released when due" needs
+    _pe = lambda a: variant_of_call(re.escape(SB) + "::park", "Err")(a)
+    handshake_waiter(ctx, MX + "::lock", Call(re.escape(MX) + "::unlock"), "mutex-relock/handshake", "lock", _pe, exits_kind="trigger+park")
+    handshake_waker(ctx, MX + "::unpark_one", Call(re.escape(MX) + "::unlock"), "mutex-relock/waker", "lock")
     ctx.order(CV + "::notify_one", Call(SEGQ + "pop", on=CV + ".to_wake"), Call(re.escape(SB) + "::unpark"), "pop-then-unpark", "the waiter that is woken was dequeued")
     # notify_all loops to empty
     f = ctx.fn("R-EXIT", CV + "::notify_all", "notify-all-drains")
